@@ -183,8 +183,24 @@ def exposure_green_then_lay(sid, market_limit=100.0):
             "strategies": [{"name": "A", "max_selection_exposure": 200.0, "max_order_exposure": 200.0, "max_market_exposure": market_limit, "max_live_trade_count": 5, "script": script}]}
 
 
+def exposure_same_price(sid, side="LAY", n=3, price=3.0, size=4.0, limit=20.0):
+    """several acknowledged orders of one strategy rest on a selection at the SAME price (orders of one trade / several
+    live trades); each further one must be judged with all the earlier ones counted: LAY 4 @ 3.0 risks 8 each, the
+    limit of 20 admits two, not a third (BACK 4 risks 4 each: limit 10)"""
+    def up(pt, trd=0.0):
+        return {"pt": pt, "version": 1, "books": {"11": _bk([[2.0, 50]], [[4.0, 50]], [[price, trd]] if trd else []), "12": _bk([[3.0, 10]], [[3.4, 10]], [])}}
+    ups = [up(1000 * k) for k in range(n + 2)] + [up(1000 * (n + 2), 200.0), up(1000 * (n + 3), 200.0)]
+    script = {}
+    for i in range(n + 1):
+        script["1.100000001|%d|book" % (1000 * i)] = [{"op": "place", "o": "s%d" % i, "t": "ts%d" % i, "sel": 11, "side": side, "price": price, "size": size}]
+    return {"id": sid, "cfg": {}, "markets": [{"id": "1.100000001", "event_id": "30000001", "market_type": "WIN", "winners": 1, "bsp": True, "persistence": True, "runners": [11, 12], "updates": ups}],
+            "strategies": [{"name": "A", "max_selection_exposure": limit, "max_order_exposure": limit, "max_live_trade_count": 10, "script": script}]}
+
+
 def family_exposure(tier, seed):
-    out = [exposure_cancel_then_place("x_exp_cancel_place"), exposure_cancel_then_place("x_exp_cancel_part_place", partial=4.0),
+    out = [exposure_same_price("x_exp_same_price_lay"), exposure_same_price("x_exp_same_price_back", side="BACK", limit=10.0),
+           exposure_same_price("x_exp_same_price_lay2", price=2.5, size=6.0, limit=20.0),
+           exposure_cancel_then_place("x_exp_cancel_place"), exposure_cancel_then_place("x_exp_cancel_part_place", partial=4.0),
            exposure_cancel_then_place("x_exp_cancel_place_slow", gap=500),
            exposure_green_then_lay("x_exp_green_lay"), exposure_green_then_lay("x_exp_green_lay_90", market_limit=90.0),
            exposure_replace("x_exp_lay_up"), exposure_replace("x_exp_lay_small", new_price=1.6), exposure_replace("x_exp_back", side="BACK", price=50.0, new_price=40.0, size=8.0),
